@@ -269,6 +269,7 @@ func (rep *Report) finish(evFile string) int {
 		body := fmt.Sprintf("\t\tpresent := false\n%s\n\t\tif present {\n\t\t\tfmt.Printf(\"VERIF-RESULT %s fail defect-present\\n\")\n\t\t} else {\n\t\t\tfmt.Printf(\"VERIF-RESULT %s pass defect-absent\\n\")\n\t\t}\n", kf.Probe, name, name)
 		tests = append(tests, overlayTest{Name: name, Body: body})
 	}
+	nReplays := 0
 	for i, vc := range failed {
 		p := &pending{vc: vc}
 		for k := range known.Findings {
@@ -277,7 +278,11 @@ func (rep *Report) finish(evFile string) int {
 				p.kf = kf
 			}
 		}
-		if p.kf == nil && vc.Status == "sat" {
+		if p.kf == nil && vc.Status == "sat" && nReplays >= 8 {
+			p.note = "replay not generated: more than 8 failed obligations with a model in this run (the first 8 are replayed)"
+		}
+		if p.kf == nil && vc.Status == "sat" && nReplays < 8 {
+			nReplays++
 			t, args, note := buildReplay(w, vc, rep.prelude, rep.outDir, fmt.Sprintf("VerifReplay%d", i))
 			p.test, p.args, p.note = t, args, note
 			if t != nil {
